@@ -12,6 +12,13 @@ Domain : general Colang 2 programs (vf/co2.py: match/send/actions/start/await/ac
          it - finishes, returns, aborts - while the child's matched head is still queued, the child's next statement being a head
          fork (or-/and-group, when, send/start/await group): drawn into 2 of 5 generated programs (with the shared event steered
          into the history) and enumerated (4 relations x 5 parent ends x 10 child continuations x 3 pattern pairs x short histories).
+         And the MAIN flow as a dimension of its own: how it ENDS (waits for ever | ends after k statements | ends after an event -
+         the interpreter then re-arms it: status WAITING, one fresh head on `match StartFlow(flow_id="main")`, started again by the
+         StartFlow(main) event that the runtime sends at the next turn = history item ["startmain"]) and a FAULTY ACTION statement in
+         main itself (an action whose Start event cannot be generated, e.g. `start UtteranceBotAction(script=None)`: the error arises
+         while the action conflicts are resolved - as the single actionable head, or as winner / loser / co-winner against a rival
+         flow that acts on the same event): drawn into the generated programs and the library leg, and enumerated (families
+         main-ends and main-faulty-action).
 Oracle : structural invariants after EVERY run_to_completion (vf/smh.invariants): I1 no pending internal event, I2 every
          listening flow's live heads are parked on match/WaitForHeads (smh also tolerates MergeHeads; merges_pending() below
          does not: a head merging statement is executed, not waited on, so no live head may be left there), I3 finished/stopped
@@ -29,14 +36,18 @@ PID = "C09"
 LEVEL = "exploration"
 CASE_TIMEOUT = 40
 RULE = (
-    "enumerated: the parent-ends-on-shared-event family - a parent flow and its child wait for the SAME event Ev0 (pattern pairs parent/child: ()/(), (v=1)/(), ()/(v=1): equal scores, parent or child more specific), the parent is first in the hierarchy order and, once matched, finishes | returns | aborts | sends and finishes | goes on (control), while the child's next statement after its match is `match A or B` | `match A and B` | when/or when | `send A and B` | `start ActionA and ActionB` | `await ActionA or ActionB` | `await fa or fb` | a plain match | a send | nothing (child ends too) - 5 parent ends x 10 child continuations x 4 relations (parent starts the child; activates it; starts a middle flow that awaits the child; the parent itself is activated by main and restarts) x 3 pattern pairs x ALL histories of length <= 2 (quick) / 3 (thorough) over Ev0(v=1), Ev0(), Ev1, Ev2, Finished of the first running action (thorough: + state round trip) that contain Ev0 at least once; non-trivial = a parent and its child were both indexed for the event that was fed and the parent ended during it; "
+    "enumerated (placed first): the main-ends family - the MAIN flow reaches its end: 4 preludes (nothing below main | an activated child | a started child that still waits + a running action | all three) x 6 bodies (main ends at once while it is started | after an event | after two events | out of `match Ev0() or Ev1()` | out of a when/or when | after an awaited child) x 4 ends (runs off its end | `return` | a last `send` | `abort` as control: main fails and is not re-armed) x ALL histories of length <= 3 (quick) / 4 (thorough) over Ev0, Ev1, [\"startmain\"] = StartFlow(flow_id=main) as the runtime sends it at the next turn - fed only while main is WAITING, a state round trip (thorough: + 6 s idle time); non-trivial = main was seen re-armed (status WAITING after it had run); "
+    "the main-faulty-action family - an action statement of MAIN itself whose Start event cannot be generated (6 statements: `start UtteranceBotAction(script=None)`, `start UtteranceBotAction(script=5) as $bad`, `await UtteranceBotAction(script=None)`, `start UtteranceBotAction()`, `start UtteranceBotAction(script=None) and GestureBotAction(..)`, `await UtteranceBotAction(script=None) or GestureBotAction(..)`) x 3 places (first statement of main | right after `match Ev0(..)` | inside a when-case) x 5 rivals (none: main is the single actionable head | a flow started by main that waits for the same Ev0 and then starts a valid action | .. the identical faulty action | .. sends a plain event | .. starts a valid action in an interaction loop of its own) x 3 pattern pairs main/rival (()/(), (v=1)/(), ()/(v=1): equal scores - then also with tie-break [1] -, main or the rival more specific, so main is winner, loser or co-winner of the conflict) x ALL histories of length <= 2 (quick) / 3 (thorough) over Ev0(v=1), Ev1, Ev2, Finished of the first running action, [\"startmain\"] (thorough: + state round trip, idle time) that contain Ev0 (any history for the first-statement place); main has an activated child and a running action; non-trivial = main was seen failed (STOPPED); "
+    "the parent-ends-on-shared-event family - a parent flow and its child wait for the SAME event Ev0 (pattern pairs parent/child: ()/(), (v=1)/(), ()/(v=1): equal scores, parent or child more specific), the parent is first in the hierarchy order and, once matched, finishes | returns | aborts | sends and finishes | goes on (control), while the child's next statement after its match is `match A or B` | `match A and B` | when/or when | `send A and B` | `start ActionA and ActionB` | `await ActionA or ActionB` | `await fa or fb` | a plain match | a send | nothing (child ends too) - 5 parent ends x 10 child continuations x 4 relations (parent starts the child; activates it; starts a middle flow that awaits the child; the parent itself is activated by main and restarts) x 3 pattern pairs x ALL histories of length <= 2 (quick) / 3 (thorough) over Ev0(v=1), Ev0(), Ev1, Ev2, Finished of the first running action (thorough: + state round trip) that contain Ev0 at least once; non-trivial = a parent and its child were both indexed for the event that was fed and the parent ended during it; "
     "the same-event or-group family - 5 constructs that fork heads and merge them again (`match A or B`, `match A or B or A`, `match (A and Ev1) or (B and Ev1)`, `when A or B / or when Ev1`, `await fa or fb` with fa/fb waiting for A/B; each program passes the group twice) x ALL 15 pairs {A, B} of 5 patterns of one event (Ev0(), Ev0(v=1), Ev0(v=regex(\"1\")), Ev0(v=regex(\"[01]\")), Ev0(w=2): one event satisfies both alternatives with equal or with different matching scores, or only one of them) x ALL histories of length <= 2 (quick) / 3 (thorough) over Ev0(v=1,w=2), Ev0(v=1), Ev0(v=0,w=2), Ev1, state round trip x tie-break outcomes [] (first candidate), [1], [0,1] (and [2] with three alternatives); plus four hand-written program families (two flows sharing one co-won action; a state round trip while a flow waits inside an open fork; one match statement reached with references of different action types; an activated flow whose scope end stops an action) x ALL histories of length <= 4 (quick) / 5 (thorough) over 5-6 items incl. idle time; generated, 3 of 4 cases: program from the co2 grammar (1-4 helper flows h_i that only reference h_j, j>i; every while body starts with a wait; main ends in "
-    "`match Never()`; in half of the programs waits are rewritten into same-event or-groups: every `match EvA or EvB` with probability 1/2 and every plain `match Ev<k>` with probability 1/2 or 1/4 becomes `match Ev<k>(p1) or Ev<k>(p2) [or Ev<k>(p3)]` with patterns drawn from (), (v=0), (v=1), (v=regex 0), (v=regex 1), (v=regex [01]) - label same-event-or-group; in 2 of 5 programs with >= 2 helpers a helper P is made the parent of a later helper C waiting for the same event: C's first statement becomes `match Ev<e>(pc)` followed by a drawn head fork (or-group, and-group, same-event or-group, when, send group, start group, await-actions group, await-flows group) or by whatever was generated, P gets `start C` / `activate C` + `match Ev<e>(pp)` at a drawn top-level place (before / after its own first wait or later; pp = pc in half of the cases, else patterns of different specificity) and then ends - runs off its end, `return`, `abort` - or goes on, main starts P first thing in 2 of 3 such programs, and Ev<e> is inserted at 1-3 drawn places of the history - labels shared-wait-parent-child, shared-wait-parent:<end>, shared-wait-child-next:<kind>, and, observed at run time for every leg, parent-ended-on-event-its-child-waited-for) x history of 1-30 items (Ev0..Ev3 with v in {None,0,1}; Started/Finished of the k-th running action) x 0-3 tie-break "
-    "choices; 1 of 4 cases: the shipped library (core, timing, avatars) under a generated main that activates 0-5 library flows and loops over 1-4 `when <user flow> / <bot flow>` cases, with histories of user utterances (final/interim/started), Ev0 and Started/Finished of running actions (timers, utterances, gestures, CheckFlowDefinedAction); invariants I1-I6 are evaluated after the start and after every event (I2 strictly: match or WaitForHeads only, a live head left on a MergeHeads statement is a violation). Tie-breaks are owned by the case (`choices`, cyclic; label tie-break-not-first-candidate = some consumed choice asked for another than the first candidate). Non-trivial = the program forks heads (group/when) AND "
+    "`match Never()` unless the main-end dimension says otherwise - see below; in half of the programs waits are rewritten into same-event or-groups: every `match EvA or EvB` with probability 1/2 and every plain `match Ev<k>` with probability 1/2 or 1/4 becomes `match Ev<k>(p1) or Ev<k>(p2) [or Ev<k>(p3)]` with patterns drawn from (), (v=0), (v=1), (v=regex 0), (v=regex 1), (v=regex [01]) - label same-event-or-group; in 2 of 5 programs with >= 2 helpers a helper P is made the parent of a later helper C waiting for the same event: C's first statement becomes `match Ev<e>(pc)` followed by a drawn head fork (or-group, and-group, same-event or-group, when, send group, start group, await-actions group, await-flows group) or by whatever was generated, P gets `start C` / `activate C` + `match Ev<e>(pp)` at a drawn top-level place (before / after its own first wait or later; pp = pc in half of the cases, else patterns of different specificity) and then ends - runs off its end, `return`, `abort` - or goes on, main starts P first thing in 2 of 3 such programs, and Ev<e> is inserted at 1-3 drawn places of the history - labels shared-wait-parent-child, shared-wait-parent:<end>, shared-wait-child-next:<kind>, and, observed at run time for every leg, parent-ended-on-event-its-child-waited-for; the MAIN flow as a dimension: main-end = waits (`match Never()`, 1 of 2) | ends-after-k (main is cut after its first k generated top-level statements, mostly few are cut; k = 0: main ends while it is started) | ends-after-event (`match Ev<e>()` [+ a send] instead of `match Never()`), with Ev<e> at 1-2, [\"startmain\"] at 1-3 and [\"mainhit\"] (an event that main itself waits for at that moment) at 3-10 drawn places of the history - labels main-end:<kind> and, observed, main-ended-and-re-armed, main-started-again; main-fault (1 of 4 programs without the parent/child dimension): one of the 6 faulty action statements at a drawn top-level place of main - anywhere, or right after a wait of its own `match Ev<e>(pm)` and then in 4 of 5 cases with a rival: a helper that main starts just before, whose first wait becomes `match Ev<e>(pr)` (pr = pm or of another specificity) followed by a valid action | the same faulty statement | a plain send - with Ev<e> and [\"mainhit\"] steered into the history - labels main-fault:<statement>, main-fault-place:, main-fault-rival:, and, observed, main-failed) x history of 1-30 items (Ev0..Ev3 with v in {None,0,1}; Started/Finished of the k-th running action) x 0-3 tie-break "
+    "choices; 1 of 4 cases: the shipped library (core, timing, avatars) under a generated main that activates 0-5 library flows and loops over 1-4 `when <user flow> / <bot flow>` cases, with histories of user utterances (final/interim/started), Ev0 and Started/Finished of running actions (timers, utterances, gestures, CheckFlowDefinedAction) - in 1 of 3 library cases main has no `while True`, i.e. it ends after the first case that fires (label main-end:ends-after-one-round; [\"startmain\"] at 1-4 places and 0-3 times an utterance followed by two action ends are inserted), in 1 of 6 the body of one when-case is a faulty action statement of main (label main-fault:in-when-case); invariants I1-I6 are evaluated after the start and after every event (I2 strictly: match or WaitForHeads only, a live head left on a MergeHeads statement is a violation). Tie-breaks are owned by the case (`choices`, cyclic; label tie-break-not-first-candidate = some consumed choice asked for another than the first candidate). Non-trivial = the program forks heads (group/when) AND "
     "some flow instance with children or actions ended during the history AND the history has >= 10 events; for the same-event family: >= 1 event fed and several heads arrived at one merge statement (a winner was picked); distinct by case (program, history, choices)."
 )
 ASSUMPTIONS = [
-    "programs whose own statements raise are C10's domain and are not generated here, so any exception out of run_to_completion is reported",
+    "programs whose own statements raise are C10's domain and are not generated here - with one exception: the MAIN flow may carry one faulty ACTION statement (the Start event of the action cannot be generated), because what the interpreter does with a failing main flow differs from what it does with any other flow and C10 only injects faults into helper flows; the interpreter handles that error itself (ColangError event, the flow fails), so any exception out of run_to_completion is still reported",
+    "a main flow that reached its end is re-armed by the interpreter (status WAITING, one head on `match StartFlow(flow_id=\"main\")`): it is a listening flow, so I2/I4/I6 apply to it as they are - its waiting head must be in the dispatch index - and nothing more is asserted about it (not that its children / actions are gone, not what it does when started again). [\"startmain\"] is fed only while main is WAITING, as RuntimeV2_x.process_events does; a main flow that failed (STOPPED) or that ended without ever having waited (it stays STARTED with an inactive head behind its last statement, like an activated flow that never waited) is never started again",
+    "[\"mainhit\"] history items read the interpreter's state (which event does main wait for right now, with which literal for v) to steer the history - input generation only, no verdict depends on it; the labels main-ended-and-re-armed / main-started-again / main-failed read main's status - coverage bookkeeping only",
     "histories contain explicit `age` items (6 s of idle time on the harness-owned clock), otherwise the clock is frozen",
     "a head merging statement (MergeHeads) is not a waiting statement in the sense of the property: a head that reaches it is merged in the same run_to_completion (winner continues, the others turn inactive) and nothing a later event does could release a head left there, so a live head on MergeHeads after an event counts as 'left on a statement that could still execute'",
     "the label parent-ended-on-event-its-child-waited-for (and the non-trivial rule of the parent/child family) reads the interpreter's own index before the event is fed - coverage bookkeeping only, no verdict depends on it",
@@ -80,6 +91,12 @@ LIB_BOT = [
     'start bot say "long text" as $ref\n      match Ev0()\n      send $ref.Stop()',
     "undefined flow name",
 ]
+# faulty action statements in MAIN itself (the Start event of the action cannot be generated); C09's own library cases only - C11 shares
+# _lib_case() / LIB_BOT and must not see them - addressed by the indexes len(LIB_BOT)..
+LIB_MAIN_FAULTS = [
+    "start UtteranceBotAction(script=None)",
+    'await UtteranceBotAction(script=None) or GestureBotAction(gesture="g")',
+]
 LIB_TEXTS = ["hi", "bye", "please stop now", "something else", ""]
 
 
@@ -100,14 +117,37 @@ def _lib_case(draw):
     return {"leg": "lib", "activate": sorted(acts), "cases": cases, "hist": draw(st.lists(item, min_size=3, max_size=25)), "choices": draw(st.lists(st.integers(0, 3), max_size=3))}
 
 
+@st.composite
+def _lib_case_main(draw):
+    """The library case of C09 (the plain _lib_case() is shared with C11) with the MAIN flow as one more dimension."""
+    case = draw(_lib_case())
+    if draw(st.integers(0, 2)) == 0:
+        # no `while True` around the when-cases: main reaches its end after the first case that fires (every flow it activated is
+        # stopped with it), waits for its next start, and the next turn starts it again
+        case["main_end"] = "ends-after-one-round"
+        for _ in range(draw(st.integers(1, 4))):
+            case["hist"].insert(draw(st.integers(1, len(case["hist"]))), ["startmain"])
+        # (a round is over when a user flow has fired and its bot flow has finished: more utterances and action ends help main on)
+        for _ in range(draw(st.integers(0, 3))):
+            at = draw(st.integers(0, len(case["hist"])))
+            case["hist"][at:at] = [["say", draw(st.integers(0, len(LIB_TEXTS) - 1))], ["finished", 0], ["finished", 0]]
+    if draw(st.sampled_from([False] * 5 + [True])):
+        # the body of one when-case is a faulty action statement of main itself
+        case["cases"][draw(st.integers(0, len(case["cases"]) - 1))][1] = len(LIB_BOT) + draw(st.integers(0, len(LIB_MAIN_FAULTS) - 1))
+    return case
+
+
 def lib_program(case):
     lines = ["flow main"]
     for a in case["activate"]:
         lines.append("  activate " + LIB_ACTIVATE[a])
-    lines.append("  while True")
+    ind = "  "
+    if case.get("main_end") != "ends-after-one-round":
+        lines.append("  while True")
+        ind = "    "
     for i, (u, b) in enumerate(case["cases"]):
-        lines.append(("    when " if i == 0 else "    or when ") + LIB_USER[u])
-        lines.append("      " + LIB_BOT[b])
+        lines.append(ind + ("when " if i == 0 else "or when ") + LIB_USER[u])
+        lines.append(ind + "  " + (LIB_BOT + LIB_MAIN_FAULTS)[b].replace("\n      ", "\n  " + ind))
     return "\n".join(lines) + "\n"
 
 
@@ -210,23 +250,111 @@ def _share_wait(draw, prog):
     return {"parent": i, "child": j, "ev": e, "end": end, "cont": cont}
 
 
+# The MAIN flow as a dimension of the program.
+# (a) how it ends. A main flow that reaches its end (or returns) is not discarded: the interpreter re-arms it - status WAITING, all
+# heads dropped, one fresh head on its first statement `match StartFlow(flow_id="main")` - and the runtime sends StartFlow(main) with
+# the next turn (history item ["startmain"], fed only while main is WAITING, as the runtime does). The waiting head of the re-armed
+# main is a waiting statement like any other: it must be in the dispatch index (I4), and I1-I6 hold for the re-armed instance as
+# for every listening flow. Nothing else is asserted about it.
+MAIN_ENDS = ["waits", "waits", "ends-after-k", "ends-after-event"]
+# (b) an action statement of main itself whose Start event cannot be generated (UtteranceBotAction demands a string `script`): the
+# error does not arise when the head slides onto the statement but later, when the action conflicts of the processing round are
+# resolved - main being the only actionable head, the winner, the loser or the co-winner of a conflict. Whatever the interpreter
+# decides to do with main then (the clean tree fails it like any other flow), no head may be left on the action statement.
+MAIN_FAULTS = {
+    "start": "start UtteranceBotAction(script=None)",
+    "start-as-ref": "start UtteranceBotAction(script=5) as $bad",
+    "await": "await UtteranceBotAction(script=None)",
+    "no-argument": "start UtteranceBotAction()",
+    "start-and-group": 'start UtteranceBotAction(script=None) and GestureBotAction(gesture="g")',
+    "await-or-group": 'await UtteranceBotAction(script=None) or GestureBotAction(gesture="g")',
+}
+MAIN_RIVALS = {"action": 'start UtteranceBotAction(script="rival")', "same-fault": None, "event": "send OutR()"}  # same-fault: the statement of main
+
+
+def _main_end(draw, prog):
+    """Draws how main ends: as generated (`match Never()`), after its first k generated top-level statements (k = 0: at once, during
+    the start), or after one more event (`match Ev<e>()` instead of `match Never()`, optionally followed by a send)."""
+    main = prog["flows"][-1]["body"]  # [$x = 0, $y = 0, generated statements .., match Never()]
+    end = draw(st.sampled_from(MAIN_ENDS))
+    if end == "waits":
+        return None
+    if end == "ends-after-k":
+        k = len(main) - 3 - draw(st.integers(0, len(main) - 3))  # (mostly few statements are cut; a main that never waits at all is
+        del main[2 + k :]  # not re-armed: it stays STARTED with an inactive head behind its end, like an activated flow that never waited)
+        return {"end": end, "k": k}
+    e = draw(st.integers(0, co2.EVENTS - 1))
+    main[-1] = {"k": "raw", "text": f"match Ev{e}()"}
+    if draw(st.booleans()):
+        main.append({"k": "send", "n": draw(st.integers(0, 5))})
+    return {"end": end, "ev": e}
+
+
+def _main_fault(draw, prog, open_end):
+    """Puts one faulty action statement into main at a drawn top-level place: anywhere (1 of 3), or right after a wait of its own for
+    a drawn event (2 of 3) - and then in 4 of 5 cases with a RIVAL: a helper that main starts just before, whose first wait becomes a
+    wait for the same event (pattern equal to main's or of another specificity) followed by a valid action / the same faulty
+    statement / a plain send, so that both flows arrive at their action statements in the same processing round."""
+    helpers = prog["flows"][:-1]
+    main = prog["flows"][-1]["body"]
+    fault = draw(st.sampled_from(sorted(MAIN_FAULTS)))
+    k = draw(st.integers(2, len(main) if open_end else len(main) - 1))  # never behind `match Never()`
+    info = {"fault": fault, "place": "anywhere", "rival": "none"}
+    block = [{"k": "raw", "mainfault": fault, "text": MAIN_FAULTS[fault]}]
+    if draw(st.integers(0, 2)) > 0:
+        e = draw(st.integers(0, co2.EVENTS - 1))
+        pm = draw(st.sampled_from([0, 0, 2, 5]))
+        info.update(place="after-wait", ev=e)
+        block.insert(0, {"k": "raw", "text": f"match Ev{e}({V_PATTERNS[pm]})"})
+        rival = draw(st.sampled_from(["none", "action", "action", "same-fault", "event"]))
+        if rival != "none":
+            j = draw(st.integers(0, len(helpers) - 1))
+            pr = pm if draw(st.booleans()) else draw(st.sampled_from([0, 2, 4, 5]))
+            body = helpers[j]["body"]  # [$x = 0, $y = 0, a wait, ..]
+            body[2] = {"k": "raw", "text": f"match Ev{e}({V_PATTERNS[pr]})"}
+            body.insert(3, {"k": "raw", "text": MAIN_RIVALS[rival] or MAIN_FAULTS[fault]})
+            block.insert(0, {"k": "startflow", "f": j, "arg": draw(st.integers(0, 2)) if helpers[j]["params"] else None, "ref": 92})
+            info["rival"] = rival
+    main[k:k] = block
+    return info
+
+
 @st.composite
 def _case(draw):
     if draw(st.integers(0, 3)) == 0:
-        return draw(_lib_case())
+        return draw(_lib_case_main())
     prog = draw(co2.programs(profile={"recursion": True}))
     if draw(st.booleans()):
         # one more dimension of the program: or-groups over patterns of the same event (co2 itself only draws distinct events)
         rate = draw(st.sampled_from([2, 4]))
         for fl in prog["flows"]:
             _rewrite(draw, fl["body"], rate)
+    # one more dimension: how the main flow ends (half of the programs: as generated, it waits for ever)
+    main_end = _main_end(draw, prog)
     # one more dimension: a parent and its child waiting for the same event, the parent ending on it (2 of 5 programs with >= 2 helpers)
     shared = _share_wait(draw, prog) if draw(st.integers(0, 4)) < 2 else None
+    # one more dimension: a faulty action statement in main itself (1 of 4 of the remaining programs)
+    main_fault = _main_fault(draw, prog, bool(main_end)) if shared is None and draw(st.integers(0, 3)) == 0 else None
     hist = draw(co2.histories(30))
     if shared:
         # steer the history: the shared event is fed at 1-3 drawn places (mostly with v=1, which most of the drawn patterns accept)
         for _ in range(draw(st.integers(1, 3))):
             hist.insert(draw(st.integers(0, min(len(hist), 12))), ["ev", shared["ev"], draw(st.sampled_from([1, 1, None, 0]))])
+    if main_end or main_fault:
+        # .. main is helped on its way to its end / its faulty statement: 3-10 times an event that main itself waits for at that time
+        for _ in range(draw(st.integers(3, 10))):
+            hist.insert(draw(st.integers(0, len(hist))), ["mainhit", draw(st.integers(0, 2)), draw(st.sampled_from([None, None, None, 1, 0]))])
+    if main_fault and "ev" in main_fault:
+        # .. the event main waits for in front of its faulty statement
+        for _ in range(draw(st.integers(1, 2))):
+            hist.insert(draw(st.integers(0, len(hist))), ["ev", main_fault["ev"], draw(st.sampled_from([1, 1, None]))])
+    if main_end:
+        # .. the event main ends on, and the next turn(s): StartFlow(main) at 1-3 drawn places
+        if "ev" in main_end:
+            for _ in range(draw(st.integers(1, 2))):
+                hist.insert(draw(st.integers(0, len(hist))), ["ev", main_end["ev"], None])
+        for _ in range(draw(st.integers(1, 3))):
+            hist.insert(draw(st.integers(0, len(hist))), ["startmain"])
     case = {
         "prog": prog,
         "hist": hist,
@@ -234,6 +362,10 @@ def _case(draw):
     }
     if shared:
         case["shared"] = shared
+    if main_end:
+        case["main_end"] = main_end
+    if main_fault:
+        case["main_fault"] = main_fault
     return case
 
 
@@ -452,7 +584,103 @@ def _parent_child_cases(tier):
                             yield {"leg": "pc", "family": "parent-ends-on-shared-event", "rel": rel, "end": end, "cont": cont, "pats": list(pats), "hist": [list(x) for x in h], "choices": []}
 
 
+# The MAIN flow reaches its END (runs off its end / returns / after a last send; `abort` = control: main fails and is not re-armed):
+# at once while it is started, after an event, after two events, out of an or-group / a when / an awaited child - with nothing below
+# it, an activated child, a started child that still waits, a running action, or all of them. Then the next turn(s): StartFlow(main)
+# again (["startmain"]), further events, a state round trip while main waits to be started.
+ME_PRELUDE = {
+    "nothing": [],
+    "activated-child": ["activate echo"],
+    "started-child-and-action": ["start child as $c", 'start UtteranceBotAction(script="w") as $w'],
+    "all": ["activate echo", "start child as $c", 'start UtteranceBotAction(script="w") as $w'],
+}
+ME_BODY = {
+    "at-once": [],
+    "after-event": ["match Ev0()"],
+    "after-two-events": ["match Ev0()", "send OutA()", "match Ev1()"],
+    "after-or-group": ["match Ev0() or Ev1()"],
+    "after-when": ["when Ev0()", "  send OutW()", "or when Ev1()", "  send OutX()"],
+    "after-child": ["await short"],
+}
+ME_END = {"runs-off-end": [], "return": ["return"], "send-then-end": ["send OutZ()"], "abort": ["abort"]}
+ME_ITEMS = [["ev", 0, None], ["ev", 1, None], ["startmain"], ["save"]]
+
+
+def me_program(case):
+    flows = [
+        ("echo", ["match Ev1()", "send OutE()"]),
+        ("child", ["match Ev0()", "match Ev2()", "send OutC()"]),  # (no send on Ev0: it would compete with main's sends)
+        ("short", ["match Ev0()"]),
+        ("main", ME_PRELUDE[case["prelude"]] + ME_BODY[case["body"]] + ME_END[case["end"]] or ["pass"]),
+    ]
+    return "\n".join(f"flow {n}\n" + "".join(f"  {line}\n" for line in body) for n, body in flows)
+
+
+def _main_ends_cases(tier):
+    n = 3 if tier == "quick" else 4
+    items = ME_ITEMS + ([] if tier == "quick" else [["age"]])
+    for prelude in ME_PRELUDE:
+        for body in ME_BODY:
+            for end in ME_END:
+                for k in range(1, n + 1):
+                    for h in itertools.product(items, repeat=k):
+                        yield {"leg": "me", "family": "main-ends", "prelude": prelude, "body": body, "end": end, "hist": [list(x) for x in h], "choices": []}
+
+
+# A FAULTY ACTION statement in MAIN itself (MAIN_FAULTS): at the very start of main, right after a wait, or inside a when-case -
+# alone (the single actionable head of the round) or against a RIVAL flow (started by main, so later in the hierarchy order) that
+# waits for the same event Ev0 and then starts a valid action / the identical faulty action / sends a plain event, in main's
+# interaction loop or in one of its own; patterns main/rival: ()/(), (v=1)/(), ()/(v=1) decide who wins the conflict, with equal
+# patterns the tie-break does (choices [] and [1]). Main has an activated child and a running action below it.
+MF_PLACE = {
+    "at-start": ["{fault}", "match Ev0({pm})"],
+    "after-wait": ["match Ev0({pm})", "{fault}", "match Ev2()", "send OutM()"],
+    "in-when-case": ["when Ev0({pm})", "  {fault}", "  send OutW()", "or when Ev2()", "  send OutX()", "match Ev2()"],
+}
+MF_RIVAL = {
+    "none": None,
+    "action": (False, 'start UtteranceBotAction(script="rival")'),
+    "same-fault": (False, None),
+    "event": (False, "send OutR()"),
+    "action-in-own-loop": (True, 'start UtteranceBotAction(script="rival")'),
+}
+MF_PATS = [("", ""), ("v=1", ""), ("", "v=1")]
+MF_ITEMS = [["evp", 0, 1, None], ["ev", 1, None], ["ev", 2, None], ["finished", 0], ["startmain"]]
+
+
+def mf_program(case):
+    pm, pr = case["pats"]
+    fault = MAIN_FAULTS[case["fault"]]
+    text = "flow echo\n  match Ev1()\n  send OutE()\n\n"
+    main = ["activate echo", 'start UtteranceBotAction(script="w") as $w']
+    if MF_RIVAL[case["rival"]] is not None:
+        own_loop, stmt = MF_RIVAL[case["rival"]]
+        text += ('@loop("NEW")\n' if own_loop else "") + f"flow rival\n  match Ev0({pr})\n  {stmt or fault}\n  match Ev3()\n  send OutQ()\n\n"
+        main.append("start rival")
+    main += [line.format(fault=fault, pm=pm) for line in MF_PLACE[case["place"]]]
+    return text + "flow main\n" + "".join(f"  {line}\n" for line in main)
+
+
+def _main_fault_cases(tier):
+    n = 2 if tier == "quick" else 3
+    items = MF_ITEMS + ([] if tier == "quick" else [["save"], ["age"]])
+    for fault in MAIN_FAULTS:
+        for place in MF_PLACE:
+            for rival in MF_RIVAL:
+                if place == "at-start" and rival != "none":
+                    continue  # nothing else is running yet
+                for pats in MF_PATS if rival != "none" else MF_PATS[:1]:
+                    for choices in [[], [1]] if rival != "none" and pats[0] == pats[1] else [[]]:
+                        for k in range(1, n + 1):
+                            for h in itertools.product(items, repeat=k):
+                                if place != "at-start" and not any(x[0] == "evp" for x in h):
+                                    continue  # main never gets to its faulty statement
+                                yield {"leg": "mf", "family": "main-faulty-action", "fault": fault, "place": place, "rival": rival, "pats": list(pats), "hist": [list(x) for x in h], "choices": choices}
+
+
 def enumerate_cases(tier):
+    yield from _main_ends_cases(tier)
+    yield from _main_fault_cases(tier)
     yield from _parent_child_cases(tier)
     yield from _same_event_cases(tier)
     for name, (text, items) in FAMILIES.items():
@@ -503,8 +731,23 @@ class Observed:
     for labels only: 'a parent and its child both waited for this event and the parent ended on it')."""
 
     waited = ()
+    main_restarts = 0
 
     def feed(self, item):
+        if item[0] == "startmain":
+            # the next turn: the runtime (RuntimeV2_x.process_events) puts StartFlow(flow_id="main") in front of the turn's events
+            # if - and only if - the main flow waits to be started, i.e. after it has reached its end
+            main = self.state.main_flow_state
+            if main is None or main.status.value != "waiting":
+                return None
+            from nemoguardrails.colang.v2_x.runtime.flows import InternalEvent
+
+            self.waited = sorted({f for f, _ in self.state.event_matching_heads.get("StartFlow", [])})
+            smh.sm().run_to_completion(self.state, InternalEvent(name="StartFlow", arguments={"flow_id": "main"}))
+            out = [dict(e) for e in self.state.outgoing_events]
+            self._ledger(out)
+            self.main_restarts += 1
+            return out
         e = self.concrete(item)
         if e is None:
             return None
@@ -553,7 +796,7 @@ class LibSession(Observed, smh.Session):
 
 
 class Session(Observed, smh.Session):
-    """smh.Session plus events with two parameters: ["evp", k, v|None, w|None] -> Ev<k>(v=.., w=..)."""
+    """smh.Session plus events with two parameters: ["evp", k, v|None, w|None] -> Ev<k>(v=.., w=..), and ["mainhit", i, v|None]."""
 
     def concrete(self, item):
         if item[0] == "evp":
@@ -562,6 +805,25 @@ class Session(Observed, smh.Session):
                 d["v"] = item[2]
             if item[3] is not None:
                 d["w"] = item[3]
+            return d
+        if item[0] == "mainhit":
+            # steering (co-simulation, like "hit"): the i-th of the events Ev<k> that the MAIN flow itself currently waits for; without
+            # a drawn value the parameter v is taken from the waiting statement's own pattern (0 / 1 as the literal or regex demands)
+            main = self.state.main_flow_state
+            elements = self.state.flow_configs[main.flow_id].elements
+            waits = {}
+            for name, heads in smh.scan_matchers(self.state).items():
+                for f, h in heads:
+                    if f == main.uid and name.startswith("Ev"):
+                        spec = getattr(elements[main.heads[h].position], "spec", None)
+                        waits.setdefault(name, str((getattr(spec, "arguments", None) or {}).get("v", "")))
+            if not waits:
+                return None
+            name = sorted(waits)[item[1] % len(waits)]
+            d = {"type": name}
+            v = item[2] if item[2] is not None else (1 if "1" in waits[name] else 0 if "0" in waits[name] else None)
+            if v is not None:
+                d["v"] = v
             return d
         return super().concrete(item)
 
@@ -591,6 +853,10 @@ def invariants(state):
     return smh.invariants(state) + merges_pending(state)
 
 
+def _main_status(state):
+    return state.main_flow_state.status.value if state.main_flow_state is not None else None
+
+
 def prop(case):
     if case.get("leg") == "or":
         from collections import Counter
@@ -600,7 +866,7 @@ def prop(case):
         mk = lambda: Session(text, case["choices"])  # noqa: E731
     elif case.get("leg") == "lib":
         text = lib_program(case)
-        kinds = {"matchg": 1, "awaitg": 0, "when": 1, "activate": len(case["activate"]), "startact": 1, "awaitact": 0, "while": 1}
+        kinds = {"matchg": 1, "awaitg": 0, "when": 1, "activate": len(case["activate"]), "startact": 1, "awaitact": 0, "while": int(case.get("main_end") != "ends-after-one-round")}
         from collections import Counter
 
         kinds = Counter(kinds)
@@ -610,6 +876,18 @@ def prop(case):
 
         text = pc_program(case)
         kinds = Counter({"matchg": int(case["cont"] not in ("match", "send", "ends")), "when": int(case["cont"] == "when"), "activate": int("activate" in case["rel"]), "startact": int(case["cont"] in ("start-group", "await-actions"))})
+        mk = lambda: Session(text, case["choices"])  # noqa: E731
+    elif case.get("leg") == "me":
+        from collections import Counter
+
+        text = me_program(case)
+        kinds = Counter({"matchg": int(case["body"] == "after-or-group"), "when": int(case["body"] == "after-when"), "activate": int("echo" in text.split("flow main")[1]), "startact": int("Action" in text)})
+        mk = lambda: Session(text, case["choices"])  # noqa: E731
+    elif case.get("leg") == "mf":
+        from collections import Counter
+
+        text = mf_program(case)
+        kinds = Counter({"awaitga": int("group" in case["fault"]), "when": int(case["place"] == "in-when-case"), "activate": 1, "startact": 1})
         mk = lambda: Session(text, case["choices"])  # noqa: E731
     elif case.get("leg") == "text":
         from collections import Counter
@@ -633,6 +911,7 @@ def prop(case):
     parent_ended_below = False
     seen_done = set()
     fed = 0
+    main_status = {_main_status(s.state)}  # coverage bookkeeping only: was main seen re-armed (waiting) / failed (stopped)
     for i, item in enumerate(case["hist"]):
         try:
             out = s.feed(item)
@@ -645,6 +924,7 @@ def prop(case):
         if bad:
             raise Violation(bad[0][0], f"after event #{i} {item} of {case['hist'][: i + 1]}: {bad[0][1]}\n{text}")
         parent_ended_below = parent_ended_below or s.parent_ended_below()
+        main_status.add(_main_status(s.state))
         for fs in s.state.flow_states.values():
             if fs.uid not in seen_done and fs.status.value in ("finished", "stopped"):
                 seen_done.add(fs.uid)
@@ -678,6 +958,27 @@ def prop(case):
         labels += ["family:" + case["family"], "pc-end:" + case["end"], "pc-child-next:" + case["cont"], "pc-relation:" + case["rel"]]
     if case.get("shared"):
         labels += ["shared-wait-parent-child", "shared-wait-parent:" + case["shared"]["end"], "shared-wait-child-next:" + case["shared"]["cont"]]
+    # the main flow as a dimension: how it ends (generated / library / enumerated), a faulty action statement of its own, and what was
+    # observed: main seen re-armed (WAITING after it had run), started again by StartFlow(main), failed (STOPPED)
+    if case.get("leg") == "me":
+        labels += ["family:" + case["family"], "me-prelude:" + case["prelude"], "me-body:" + case["body"], "me-end:" + case["end"]]
+    elif case.get("leg") == "mf":
+        labels += ["family:" + case["family"], "mf-fault:" + case["fault"], "mf-place:" + case["place"], "mf-rival:" + case["rival"]]
+    elif case.get("leg") == "lib":
+        labels.append("main-end:" + case.get("main_end", "waits"))
+        if any(b >= len(LIB_BOT) for _, b in case["cases"]):
+            labels.append("main-fault:in-when-case")
+    elif case.get("prog") and case.get("leg") is None:
+        labels.append("main-end:" + (case.get("main_end") or {"end": "waits"})["end"])
+        if case.get("main_fault"):
+            mf = case["main_fault"]
+            labels += ["main-fault:" + mf["fault"], "main-fault-place:" + mf["place"], "main-fault-rival:" + mf["rival"]]
+    if "waiting" in main_status:
+        labels.append("main-ended-and-re-armed")
+    if s.main_restarts:
+        labels.append("main-started-again")
+    if "stopped" in main_status:
+        labels.append("main-failed")
     if case.get("leg") == "text":
         labels.append("family:" + case["family"])
     elif case.get("leg") == "lib":
@@ -696,4 +997,8 @@ def prop(case):
         nt = fed >= 1 and parent_ended_below  # parent and child both waited for the event that was fed and the parent ended on it
     if case.get("leg") == "or":
         nt = fed >= 1 and smh.CHOOSER.used > 0  # several heads arrived at one merge statement and a winner had to be picked
+    if case.get("leg") == "me":
+        nt = "waiting" in main_status  # main reached its end and was re-armed
+    if case.get("leg") == "mf":
+        nt = "stopped" in main_status  # main got to its faulty statement (or lost the conflict there) and failed
     return ok(nt=nt, labels=labels, view=view, counters={"events_fed": fed})
